@@ -1,7 +1,7 @@
 (* C06 — one-at-a-time upstream connections are reused only when clean.
-   Only statements; the model is Net/Reuse.v (small-step LTS of ReuseConnTransport at the granularity
-   of the Go code's atomic actions + big-step quiescent histories), proofs are in Net/ReuseProofs.v.
-   [reachable s] = some finite sequence of labels leads from [init] to [s]: every schedule of any
+   Only statements; the model is Net/Reuse.v (small-ru_step LTS of ReuseConnTransport at the granularity
+   of the Go code's atomic actions + big-ru_step quiescent histories), proofs are in Net/ReuseProofs.v.
+   [reachable s] = some finite sequence of labels leads from [ru_init] to [s]: every schedule of any
    number of callers, workers, dial goroutines, idle timers, cancellations, transport Close and of a
    server that owes one (tagged) reply per query and may delay, split or abort — at that granularity.
 
@@ -30,14 +30,14 @@ Print Assumptions C06_idle_clean.
 (* exitIdle / enterIdle never reach their panic branches, and a connection never has two owners *)
 Theorem C06_exclusive : forall s, reachable s ->
   panicked s = false /\
-  (forall l s', step s l = Some s' -> panicked s' = false) /\
+  (forall l s', ru_step s l = Some s' -> panicked s' = false) /\
   (forall w1 w2 c, held (w_pc (works s w1)) = Some c -> held (w_pc (works s w2)) = Some c -> w1 = w2) /\
   (forall w c, held (w_pc (works s w)) = Some c -> f_inidle (fl (conns s c)) = false).
 Proof. exact c06_exclusive. Qed.
 Print Assumptions C06_exclusive.
 
 (* against a one-reply-per-query server a message returned to a caller (and a message a worker
-   puts on its result channel) answers that caller's own query — in every reachable state, i.e.
+   puts on its result_ru channel) answers that caller's own query — in every reachable state_ru, i.e.
    for every placement of cancellations, timer expiries, aborts and split replies *)
 Theorem C06_own_reply : forall s, reachable s ->
   (forall e q, x_pc (exchs s e) = CDone (OMsg q) -> q = e) /\
@@ -45,19 +45,19 @@ Theorem C06_own_reply : forall s, reachable s ->
 Proof. exact c06_own_reply. Qed.
 Print Assumptions C06_own_reply.
 
-(* after the caller gave up: (a) its give-up step touches neither connections nor goroutines;
+(* after the caller gave up: (a) its give-up ru_step touches neither connections nor goroutines;
    (b) as long as a goroutine still owns the connection it is outside the idle set, marked serving
-   until enterIdle/close, and owned by nobody else; (c) the only step that puts a connection into
+   until enterIdle/close, and owned by nobody else; (c) the only ru_step that puts a connection into
    the idle set is the end of its owner's releaseConn on the success path, when the complete reply
    has been consumed; (d) a connection that saw an I/O error is never idle (it is closed instead) *)
 Theorem C06_abandoned : forall s, reachable s ->
-  (forall e s', step s (LCallerCtxDone e) = Some s' ->
+  (forall e s', ru_step s (LCallerCtxDone e) = Some s' ->
      conns s' = conns s /\ works s' = works s /\ nconn s' = nconn s /\ x_pc (exchs s' e) = CDone OCancel) /\
   (forall w c, held (w_pc (works s w)) = Some c ->
      f_inidle (fl (conns s c)) = false /\
      (hard (w_pc (works s w)) = true -> f_serving (fl (conns s c)) = true /\ f_closed (fl (conns s c)) = false) /\
      (forall w', held (w_pc (works s w')) = Some c -> w' = w)) /\
-  (forall l s' c, step s l = Some s' ->
+  (forall l s' c, ru_step s l = Some s' ->
      f_inidle (fl (conns s c)) = false -> f_inidle (fl (conns s' c)) = true ->
      exists w, l = LRel2 w /\ w_pc (works s w) = WRel2 c true /\
                f_serving (fl (conns s c)) = false /\ cleanc (conns s c)) /\
@@ -65,15 +65,15 @@ Theorem C06_abandoned : forall s, reachable s ->
 Proof. exact c06_abandoned. Qed.
 Print Assumptions C06_abandoned.
 
-(* the histories replayed against the implementation are schedules of the small-step system, so
-   all of the above holds of every state the model runner prints *)
+(* the histories replayed against the implementation are schedules of the small-ru_step system, so
+   all of the above holds of every state_ru the model runner prints *)
 Theorem C06_big_refines_small : forall evs s tr,
-  run_trace evs = Some (s, tr) -> steps init tr = Some s /\ reachable s.
+  run_trace evs = Some (s, tr) -> steps ru_init tr = Some s /\ reachable s.
 Proof. exact c06_big_refines_small. Qed.
 Print Assumptions C06_big_refines_small.
 
 (* ---- non-vacuity ---- *)
-Definition view_of (evs : list event) :=
+Definition view_of (evs : list event_ru) :=
   match run_history evs with
   | Some s => Some (outcomes s, nconn s, obs_idle s, obs_maxout s, spec_ok s)
   | None => None
@@ -106,7 +106,7 @@ Example C06_ex_abort_timer_retry :
   = Some ([CDone OErr; CDone (OMsg 1); CDone (OMsg 2); CDone (OMsg 3)], 4, 1, 1, true).
 Proof. vm_compute. reflexivity. Qed.
 
-(* the bound of C06_single_outstanding is tight: a reachable state with one query outstanding *)
+(* the bound of C06_single_outstanding is tight: a reachable state_ru with one query outstanding *)
 Example C06_ex_outstanding : exists s, reachable s /\ i_written (io (conns s 0)) = 1 /\ i_consumed (io (conns s 0)) = 0.
 Proof.
   destruct (run_history [EStart false]) as [s|] eqn:E; [|vm_compute in E; discriminate].
